@@ -177,8 +177,12 @@ pub fn install_quiet_panic_hook() {
                 *p = Some(format!("{msg} @ {loc}"));
             }
         });
-        if std::env::var("VERIF_SHOW_PANICS").is_ok() {
-            eprintln!("[panic] {msg} @ {loc}");
+        if let Ok(v) = std::env::var("VERIF_SHOW_PANICS") {
+            let task = shuttle::current::get_current_task().map(usize::from);
+            eprintln!("[panic] task={task:?} {msg} @ {loc}");
+            if v == "2" {
+                eprintln!("{}", std::backtrace::Backtrace::force_capture());
+            }
         }
     }));
 }
@@ -196,7 +200,28 @@ pub enum Plan {
 pub const STEP_BOUND: usize = 2_000_000;
 
 /// Run `body` as the main task of one execution.
+///
+/// Every execution gets its own OS thread. Reason: when a task panics, a drop handler on its
+/// coroutine stack may switch out in the middle of unwinding, and if the execution then ends
+/// that coroutine is never resumed; `std::thread::panicking()` (a per-OS-thread counter) would
+/// stay true for ever, shuttle would treat every later lock release on that thread as "we are
+/// panicking" and every later execution in the process would fail spuriously.
 pub fn run_execution<F>(plan: Plan, body: F) -> ExecReport
+where
+    F: Fn() + Send + Sync + 'static,
+{
+    let handle = std::thread::Builder::new()
+        .name("execution".into())
+        .stack_size(16 * 1024 * 1024)
+        .spawn(move || run_execution_here(plan, body))
+        .expect("spawn execution thread");
+    match handle.join() {
+        Ok(r) => r,
+        Err(_) => simcore::harness_error("the execution thread itself panicked outside the simulated execution"),
+    }
+}
+
+fn run_execution_here<F>(plan: Plan, body: F) -> ExecReport
 where
     F: Fn() + Send + Sync + 'static,
 {
